@@ -147,7 +147,7 @@ def all_property_theorems():
 
 def audit_source() -> str:
     """`#print axioms` for every theorem stated under Props/ (regenerated on every build)."""
-    lines = ["import IcontractModel", "open Icontract"]
+    lines = ["import IcontractModel"]
     for n in all_property_theorems():
         lines.append("#print axioms %s" % n)
     return "\n".join(lines) + "\n"
@@ -175,13 +175,28 @@ def parse_audit(txt: str):
 
 
 def theorems_of(prop: str):
-    """Names of the theorems stated in lean/IcontractModel/Props/<prop>.lean."""
+    """Fully qualified names of the theorems stated in lean/IcontractModel/Props/<prop>.lean
+    (namespaces are tracked; `private` helper declarations are skipped)."""
     path = os.path.join(LEAN_DIR, "IcontractModel", "Props", prop + ".lean")
     if not os.path.exists(path):
         return []
     with open(path) as fh:
         body = strip_comments(fh.read())
-    return re.findall(r"^\s*theorem\s+([A-Za-z0-9_'.]+)", body, flags=re.M)
+    out = []
+    ns = []
+    for line in body.splitlines():
+        m = re.match(r"^\s*namespace\s+([A-Za-z0-9_.]+)", line)
+        if m:
+            ns.append(m.group(1))
+            continue
+        m = re.match(r"^\s*end\s+([A-Za-z0-9_.]+)", line)
+        if m and ns and ns[-1] == m.group(1):
+            ns.pop()
+            continue
+        m = re.match(r"^\s*theorem\s+([A-Za-z0-9_'.]+)", line)
+        if m:
+            out.append(".".join(ns + [m.group(1)]))
+    return out
 
 
 def proof_gate(prop: str, thorough: bool):
@@ -197,7 +212,7 @@ def proof_gate(prop: str, thorough: bool):
         info["problems"].append("forbidden tokens in Lean sources: " + "; ".join(hits[:10]))
     names = theorems_of(prop)
     for n in names:
-        full = "Icontract." + n
+        full = n
         ax = b["audit"].get(full)
         if ax is None:
             info["problems"].append("theorem %s not found in audit output" % full)
